@@ -1304,3 +1304,273 @@ def rsdec_exec(ctx, sizes=None):
                 return False, "%s block %d: %d syndromes, the size has %d error codewords per block" % (v, blk, nsyn, k)
         n += 1
     return True, "%d symbol sizes: block b's syndromes come from data[b], data[b+B], .. followed by error[b], error[b+B], .. into k cells, for every block" % n
+
+
+# ---- LFSR: ecc_block folded over GF(256)-linear forms ---------------------------------------------------------------------
+
+class Lin:
+    """a GF(256)-linear form over opaque data codewords: {token name: coefficient} (key None: constant part)"""
+    __slots__ = ("t",)
+
+    def __init__(self, t):
+        self.t = t
+
+    def __repr__(self):
+        return "Lin(%d terms)" % len(self.t)
+
+
+def _lin(v):
+    v = T._loaded(v)
+    if isinstance(v, Lin):
+        return v
+    if isinstance(v, T.Token):
+        return Lin({str(v): 1})
+    if isinstance(v, bool) or not isinstance(v, int):
+        raise T.Undecidable("not a field element")
+    return Lin({None: v} if v else {})
+
+
+def _lin_add(a, b):
+    out = dict(a.t)
+    for k0, c in b.t.items():
+        c2 = out.get(k0, 0) ^ c
+        if c2:
+            out[k0] = c2
+        else:
+            out.pop(k0, None)
+    return Lin(out)
+
+
+def _lin_scale(a, c):
+    if c == 0:
+        return Lin({})
+    return Lin({k0: gf.mul(v, c) for k0, v in a.t.items()})
+
+
+def lfsr_exec(ctx, pairs=None):
+    """ecc_block folded with opaque data codewords: GF additions and multiplications by constants are carried out on GF(256)-linear
+    forms (the reference field; GF-OPS shows the crate's field operations equal it), so the register content at the end is the exact
+    linear map the code computes.  It must be the remainder of d(x) * x^k modulo the generator polynomial, highest power first,
+    for every (block length, k) that occurs in a symbol size.  A product of two data-dependent values would make the map
+    non-linear and is reported.  (ok | None, detail)"""
+    if pairs is None:
+        return ctx.memo("lfsr_exec_" + ctx.tier, lambda: list(_lfsr_exec(ctx, None)))
+    return _lfsr_exec(ctx, pairs)
+
+
+def _lfsr_exec(ctx, pairs):
+    f = ctx.facts()
+    b = f.thir.get(ECCB)
+    if b is None:
+        return None, "ecc_block not found"
+    pn = [p_["pat"]["name"] for p_ in b["params"] if p_.get("pat", {}).get("k") == "Bind"]
+    if len(pn) != 3:
+        return None, "ecc_block(data, g, ecc): unexpected parameters"
+    polys = f.const("errorcode::GENERATOR_POLYNOMIALS")
+    if polys is None:
+        return None, "GENERATOR_POLYNOMIALS not found"
+    if pairs is None:
+        ref = p_symbols.reference()
+        pairs = set()
+        for row in ref:
+            B, nd, k = row["blocks"], row["data"], row["ecc_per_block"]
+            for blk in range(B):
+                pairs.add((len(range(blk, nd, B)), k))
+        pairs = sorted(pairs)
+        if ctx.tier != "thorough":
+            # the recurrence has no size-dependent branch (UNIFORM): the quick tier folds every k with its shortest block
+            # and all small blocks
+            short = {}
+            for n, k in pairs:
+                short[k] = min(short.get(k, n), n)
+            pairs = [(n, k) for n, k in pairs if n * n * k <= 150000 or short[k] == n]
+
+    def gfval(v):
+        v = T._loaded(v)
+        if isinstance(v, dict) and "#0" in v:
+            return T._loaded(v["#0"])
+        return v
+
+    def wrap(x):
+        if isinstance(x, Lin) and set(x.t) <= {None}:
+            x = x.t.get(None, 0)
+        return {"__adt__": GFT, "__variant__": "GF", "#0": x, "0": x}
+
+    def on_call(folder, c):
+        cc = T.callee_of(c)
+        if cc.split("::")[-1] in ("into", "from") and len(c["args"]) == 1 and c.get("ty") == "u8":
+            x = T._loaded(folder.fold(c["args"][0]))
+            if isinstance(x, dict) and x.get("__adt__") == GFT and isinstance(T._loaded(x.get("#0")), (Lin, T.Token)):
+                return T._loaded(x["#0"])      # u8::from(GF) is the field element's byte (galois.rs)
+            return NotImplemented
+        if GFT in cc and (" as core::ops::Add" in cc or " as core::ops::Sub" in cc or " as core::ops::Mul" in cc or " as core::ops::AddAssign" in cc) and len(c["args"]) == 2:
+            x, y = gfval(folder.fold(c["args"][0])), gfval(folder.fold(c["args"][1]))
+            if not (isinstance(x, (Lin, T.Token)) or isinstance(y, (Lin, T.Token))):
+                return NotImplemented
+            if "AddAssign" in cc:
+                raise T.Undecidable("in-place field addition on a data-dependent value")
+            if " as core::ops::Mul" in cc:
+                if "Mul<usize>" in cc or "Mul<u" in cc or "Mul<i" in cc:
+                    raise T.Undecidable("scalar multiple of a data-dependent value")
+                if isinstance(x, (Lin, T.Token)) and isinstance(y, (Lin, T.Token)):
+                    lx, ly = _lin(x), _lin(y)
+                    if set(lx.t) <= {None}:
+                        return wrap(_lin_scale(ly, lx.t.get(None, 0)))
+                    if set(ly.t) <= {None}:
+                        return wrap(_lin_scale(lx, ly.t.get(None, 0)))
+                    raise T.Trap("product of two data-dependent values (the map is not linear) at " + T.span_str(c["span"]))
+                if isinstance(x, (Lin, T.Token)):
+                    return wrap(_lin_scale(_lin(x), y))
+                return wrap(_lin_scale(_lin(y), x))
+            return wrap(_lin_add(_lin(x), _lin(y)))
+        return NotImplemented
+    n_pairs = 0
+    for n, k in pairs:
+        g = next((list(p_) for p_ in polys if len(p_) - 1 == k), None)
+        if g is None:
+            return False, "no generator polynomial of degree %d" % k
+        data = [T.Token("d%d" % i) for i in range(n)]
+        ecc = [0] * (k + 1)
+        fo = T.Folder(f, env={pn[0]: data, pn[1]: g, pn[2]: ecc}, on_call=on_call, effects=True, local_calls=2)
+        fo.max_iter = 100000
+        try:
+            fo.run(b["body"])
+        except T.Trap as ex:
+            return False, "block of %d data codewords, k = %d: %s" % (n, k, ex)
+        except T.Undecidable as ex:
+            return None, "ecc_block does not fold on linear forms (%s)" % ex
+        # reference: remainder of x^(n-1-p) * x^k modulo the standard's generator, highest power first
+        gs = gf.generator(k)
+        want = [dict() for _ in range(k)]
+        r = list(gs[1:])
+        for p_ in range(n - 1, -1, -1):
+            for j in range(k):
+                if r[j]:
+                    want[j]["d%d" % p_] = r[j]
+            lead = r[0]
+            r = [(r[j + 1] if j + 1 < k else 0) ^ gf.mul(lead, gs[j + 1]) for j in range(k)]
+        for j in range(k):
+            got = T._loaded(ecc[j])
+            got = _lin(got).t if not isinstance(got, Lin) else got.t
+            if got != want[j]:
+                diff = next((t0 for t0 in sorted(set(got) | set(want[j]), key=str) if got.get(t0, 0) != want[j].get(t0, 0)), None)
+                return False, "block of %d data codewords, k = %d: error codeword %d has coefficient %s for %s, the remainder of d(x) x^k mod g(x) has %s" % (
+                    n, k, j, got.get(diff, 0), "the constant term" if diff is None else "data codeword " + str(diff)[1:], want[j].get(diff, 0))
+        n_pairs += 1
+    return True, "%d (block length, k) combinations: the register ends as the remainder of d(x) x^k modulo the generator, for every data block" % n_pairs
+
+
+def lfsr(ctx):
+    r = "LFSR"
+    f = ctx.facts()
+    ok, det = lfsr_exec(ctx)
+    site = T.span_str(f.thir[ECCB]["span"]) if ECCB in f.thir else None
+    return [Ob(r, "remainder", bool(ok), ("cannot decide: " if ok is None else "") + "ecc_block computes the Reed-Solomon check codewords: " + str(det), site=site)]
+
+
+def _gf_hooks():
+    """on_call model of the crate's GF operators for data-dependent operands (linear forms); constant operands are left to the
+    crate's own code"""
+    def gfval(v):
+        v = T._loaded(v)
+        if isinstance(v, dict) and "#0" in v:
+            return T._loaded(v["#0"])
+        return v
+
+    def wrap(x):
+        if isinstance(x, Lin) and set(x.t) <= {None}:
+            x = x.t.get(None, 0)
+        return {"__adt__": GFT, "__variant__": "GF", "#0": x, "0": x}
+
+    def on_call(folder, c):
+        cc = T.callee_of(c)
+        last = cc.split("::")[-1]
+        if last in ("into", "from") and len(c["args"]) == 1:
+            x = T._loaded(folder.fold(c["args"][0]))
+            if isinstance(x, dict) and x.get("__adt__") == GFT and isinstance(T._loaded(x.get("#0")), (Lin, T.Token)) and c.get("ty") in ("u8", "?"):
+                return T._loaded(x["#0"])
+            if isinstance(x, T.Token):
+                return wrap(x)              # GF::from(u8)
+            return NotImplemented
+        if GFT in cc and (" as core::ops::Add" in cc or " as core::ops::Sub" in cc or " as core::ops::Mul" in cc) and "Assign" not in cc and len(c["args"]) == 2:
+            x, y = gfval(folder.fold(c["args"][0])), gfval(folder.fold(c["args"][1]))
+            if not (isinstance(x, (Lin, T.Token)) or isinstance(y, (Lin, T.Token))):
+                return NotImplemented
+            if " as core::ops::Mul" in cc:
+                if "Mul<u" in cc or "Mul<i" in cc:
+                    raise T.Undecidable("scalar multiple of a data-dependent value")
+                if isinstance(x, (Lin, T.Token)) and isinstance(y, (Lin, T.Token)):
+                    lx, ly = _lin(x), _lin(y)
+                    if set(lx.t) <= {None}:
+                        return wrap(_lin_scale(ly, lx.t.get(None, 0)))
+                    if set(ly.t) <= {None}:
+                        return wrap(_lin_scale(lx, ly.t.get(None, 0)))
+                    raise T.Trap("product of two data-dependent values (the map is not linear) at " + T.span_str(c["span"]))
+                if isinstance(x, (Lin, T.Token)):
+                    return wrap(_lin_scale(_lin(x), y))
+                return wrap(_lin_scale(_lin(y), x))
+            return wrap(_lin_add(_lin(x), _lin(y)))
+        return NotImplemented
+    return on_call
+
+
+def pee_exec(ctx):
+    """primitive_element_evaluation folded with opaque codewords (linear forms, as lfsr_exec): cell i of `out` must end as
+    c(alpha^(i+1)) = sum_j c_j alpha^((i+1)(n-1-j)) for the word c_0 .. c_(n-1) (first codeword = highest power), for every
+    (block length, number of syndromes) of a symbol size.  (ok | None, detail)"""
+    return ctx.memo("pee_exec_" + ctx.tier, lambda: list(_pee_exec(ctx)))
+
+
+def _pee_exec(ctx):
+    f = ctx.facts()
+    b = f.thir.get(PEE)
+    if b is None:
+        return None, "primitive_element_evaluation not found"
+    pn = [p_["pat"]["name"] for p_ in b["params"] if p_.get("pat", {}).get("k") == "Bind"]
+    if len(pn) != 2:
+        return None, "primitive_element_evaluation(c, out): unexpected parameters"
+    pairs = set()
+    for row in p_symbols.reference():
+        B, nd, k = row["blocks"], row["data"], row["ecc_per_block"]
+        for blk in range(B):
+            pairs.add((len(range(blk, nd, B)) + k, k))
+    if ctx.tier != "thorough":
+        # the evaluation loop has no length-dependent branch: the quick tier folds the words of the small symbol sizes, thorough all
+        pairs = {(n, k) for n, k in pairs if n * k <= 2500}
+    n_pairs = 0
+    for n, k in sorted(pairs):
+        word = [T.Token("c%d" % i) for i in range(n)]
+        out = [{"__adt__": GFT, "__variant__": "GF", "#0": 0, "0": 0} for _ in range(k)]
+        fo = T.Folder(f, env={pn[0]: word, pn[1]: out}, on_call=_gf_hooks(), effects=True, local_calls=3)
+        fo.max_iter = 100000
+        fo.sym_eq = lambda a_, b_: True
+        try:
+            fo.run(b["body"])
+        except T.Trap as ex:
+            return False, "word of %d codewords, %d syndromes: %s" % (n, k, ex)
+        except T.Undecidable as ex:
+            return None, "primitive_element_evaluation does not fold on linear forms (%s)" % ex
+        for i in range(k):
+            a = gf.pow2(i + 1)
+            want = {}
+            p = 1
+            for j in range(n - 1, -1, -1):
+                want["c%d" % j] = p
+                p = gf.mul(p, a)
+            cell = T._loaded(out[i])
+            got = T._loaded(cell.get("#0")) if isinstance(cell, dict) else cell
+            got = (got.t if isinstance(got, Lin) else _lin(got).t)
+            if got != want:
+                diff = next((t0 for t0 in sorted(set(got) | set(want), key=str) if got.get(t0, 0) != want.get(t0, 0)), None)
+                return False, "word of %d codewords: syndrome %d has coefficient %s for %s, c(alpha^%d) has %s" % (
+                    n, i, got.get(diff, 0), "the constant term" if diff is None else "codeword " + str(diff)[1:], i + 1, want.get(diff, 0))
+        n_pairs += 1
+    return True, "%d (word length, syndrome count) combinations: cell i is the word's polynomial evaluated at alpha^(i+1)" % n_pairs
+
+
+def syndromes(ctx):
+    r = "SYNDROMES"
+    f = ctx.facts()
+    ok, det = pee_exec(ctx)
+    site = T.span_str(f.thir[PEE]["span"]) if PEE in f.thir else None
+    return [Ob(r, "evaluation", bool(ok), ("cannot decide: " if ok is None else "") + "primitive_element_evaluation computes the syndromes: " + str(det), site=site)]
